@@ -194,15 +194,13 @@ func (e *Exec) resolveAssign(st *State, fn *ssa.Function, params map[string]Valu
 	}
 	if strings.HasPrefix(path, "ghost.rd(") || strings.HasPrefix(path, "ghost.wr(") {
 		inner := strings.TrimSuffix(path[len("ghost.rd("):], ")")
-		ae := e.resolveAssign(st, fn, params, inner)
-		// the location holds the reader/writer value: its reference identifies the stream
-		var val Value
-		for _, c := range []string{""} {
-			_ = c
+		// the value (a parameter, or what a location holds) is the reader/writer: its reference identifies the stream
+		val := e.valueAt(st, fn, params, inner)
+		fam := path[len("ghost."):len("ghost.rd")]
+		if fam == "wr" {
+			fam = e.wrFamily(val)
 		}
-		val = e.valueAt(st, fn, params, inner)
-		_ = ae
-		return assignEntry{prefix: "ghost:" + path[len("ghost."):len("ghost.rd")] + ".", ref: streamRef(val), text: path}
+		return assignEntry{prefix: "ghost:" + fam + ".", ref: streamRef(val), text: path}
 	}
 	elems := false
 	if strings.HasSuffix(path, "[*]") {
@@ -429,6 +427,10 @@ func (e *Exec) callContract(st *State, fr *Frame, sp *FnSpec, fn *ssa.Function, 
 	e.oldState = pre
 	defer func() { e.oldState = savedOld }()
 	e.freshBase = oldTop
+	for _, c := range sp.GhostEnsures {
+		e.note("GHOST DEFINITION: " + c.Name + " defines how " + sp.Target + " updates specification-only state (assumed at call sites, nothing to prove)")
+		st.Assume(e.evalSpec(st, cf, c, env, false))
+	}
 	for _, c := range sp.Ensures {
 		wasDead := st.dead
 		t := e.evalSpec(st, cf, c, env, false)
@@ -525,6 +527,13 @@ func (e *Exec) freshInput(st *State, name string, t types.Type) Value {
 func (e *Exec) unrollBound(fn *ssa.Function, lp *Loop) int {
 	if e.specMode > 0 {
 		return 64 // loops inside spec functions (constant trip counts) are unrolled
+	}
+	if e.inlineAll == 0 && e.specMode == 0 {
+		// complete unrolling: a loop whose trip count is bounded by a constant under the precondition is unrolled, and the
+		// back edge after the last unrolling carries an unwinding assertion (an obligation), so nothing is left uncovered
+		if sp := e.specs.ForFn(fn); sp != nil && sp.UnrollComplete[lp.ordinal] > 0 && sp == e.topSpec {
+			return sp.UnrollComplete[lp.ordinal]
+		}
 	}
 	if e.inlineAll > 0 && e.specMode == 0 {
 		// bounded stand-in: per-loop bound if one is declared for the callee, else the lemma's bound
